@@ -155,6 +155,40 @@ def run(ctx):
             rbo = [recgen.obs_item(x, True) for x in rb]
             terms.append(sc.render_case(obs, data, rbo, kind="read_ok"))
             metas.append((vname, cs, data))
+    # (b2) old-style streams (records name their descriptor by the bare type name) in which a type CHANGES over time: every
+    # record follows the latest definition of its name, as in concatenated archives of a type that gained or lost a field
+    from flow.record import RecordDescriptor
+    import datetime as _dt
+    t0 = _dt.datetime(2019, 1, 2, 3, 4, 5, tzinfo=_dt.timezone.utc)
+    v1 = RecordDescriptor("old/t", [("string", "a")])
+    v2 = RecordDescriptor("old/t", [("string", "a"), ("varint", "n")])
+    v3 = RecordDescriptor("old/t", [("varint", "n")])
+    other = RecordDescriptor("old/u", [("string", "a")])
+    epochs = [
+        [v1(a="1", _generated=t0), v1(a="2", _generated=t0), v2(a="3", n=3, _generated=t0), v2(a="4", n=4, _generated=t0)],
+        [v2(a="1", n=1, _generated=t0), other(a="o", _generated=t0), v1(a="2", _generated=t0), v3(n=3, _generated=t0), v3(n=4, _generated=t0)],
+        [v3(n=1, _generated=t0), v2(a="2", n=2, _generated=t0), other(a="o", _generated=t0), v1(a="3", _generated=t0)],
+    ]
+    for k, items in enumerate(epochs):
+        obs = [recgen.obs_item(x) for x in items]
+        want = [recgen.canon(recgen.obs_item(x, True)) for x in items]
+        data = refcodec.encode_stream(obs, rnd=rnd, wide=False, opts=dict(name_only_ident=True), repeat_header=False)
+        ctx.count_case(("name_only_epochs", k))
+        try:
+            rb = sc.read_stream_items(data)
+            got = [recgen.canon(recgen.obs_item(x, True)) for x in rb]
+            err = None
+        except Exception as e:  # noqa
+            rb, got, err = None, None, "%s: %s" % (type(e).__name__, e)
+        if got != want:
+            ctx.violation("an old-style stream (bare-name identifiers) in which type old/t changes its fields over time is not read back "
+                          "as the records it encodes: %s" % (err or c01.first_difference(want, got)),
+                          dict(kind="reference-encoded", variant="name_only_ident/epochs", items=[repr(x) for x in items],
+                               stream_hex=data.hex()[:6000], error=err))
+            return
+        rbo = [recgen.obs_item(x, True) for x in rb]
+        terms.append(sc.render_case(obs, data, rbo, kind="read_ok"))
+        metas.append(("name_only_epochs", dict(items=items, index=k), data))
     # (c) golden corpus
     for f in sorted(glob.glob(str(core.VERIF / "corpus/golden/*.records"))):
         data = open(f, "rb").read()
